@@ -1358,6 +1358,17 @@ class Sym:
             return [(st, ('k', int(e['cv']), 'consteval:' + callee['id']))]
         exprs = list(e.get('args', []))
         has_obj = 'obj' in e
+        if not has_obj and callee.get('name') == 'exchange' and (callee.get('q') or '').startswith('std::exchange') and len(exprs) == 2:
+            # std::exchange(x, v): x takes the value v, the call yields what x held
+            out = []
+            for s, vals in self.ev_list(exprs, st):
+                if s.throw is not None:
+                    out.append((s, None))
+                    continue
+                old = self.rvalue(vals[0], s)
+                for s2 in self.assign(s, exprs[0], vals[1]):
+                    out.append((s2, old))
+            return out
         if has_obj:
             exprs = [e['obj']] + exprs
         out = []
